@@ -30,13 +30,13 @@ def expect(op, tool_on, coolant_on):
     if coolant_on:
         busy.add(COOL)
     if name == "tool_on":
-        if args[0] not in SPIN_CODE or args[1] < 0:
+        if args[0] not in SPIN_CODE or isinstance(args[1], str) or args[1] < 0:       # 'inf' / 'nan' strings stand for non-finite powers
             R.add(ARG)
         if tool_on:
             R.add(TOOL)
         return R, [[SPIN_CODE.get(args[0])]]
     if name == "power_on":
-        if args[0] not in POWER_CODE or args[1] < 0:
+        if args[0] not in POWER_CODE or isinstance(args[1], str) or args[1] < 0:
             R.add(ARG)
         if tool_on:
             R.add(TOOL)
@@ -109,6 +109,7 @@ class C02System(BuilderSystem):
             # argument-invalid variants
             ["tool_on", ["off", 100]], ["tool_on", ["bogus", 1]], ["tool_on", ["clockwise", -1]],
             ["power_on", ["off", 10]], ["power_on", ["constant", -1]],
+            ["tool_on", ["clockwise", "inf"]], ["power_on", ["constant", "inf"]], ["tool_on", ["ccw", "nan"]], ["power_on", ["dynamic", "-inf"]],
             ["coolant_on", ["off"]], ["tool_change", ["manual", 0]], ["tool_change", ["off", 1]],
             ["halt", ["off"]],
         ]
